@@ -124,6 +124,187 @@ class Module:
         return lines[n - 1] if 0 < n <= len(lines) else ""
 
 
+def _desugar_match(tree: ast.AST) -> None:
+    """`match` statements whose patterns are values, classes (with keyword sub-patterns), captures, or-patterns without
+    captures and fixed-length sequences are rewritten into the if / elif chain of isinstance / == / len tests they stand for,
+    with the captures as assignments at the top of each arm (the analysis reads code, it never runs it: the chain has the
+    same branches, the same conditions and the same bindings). Anything richer (star patterns, mappings, positional
+    sub-patterns of user classes) is left as it is."""
+    import copy
+
+    class _No(Exception):
+        pass
+
+    def tr(p: ast.pattern, subj: ast.expr, binds: list) -> ast.expr | None:
+        """test expression for `subj` matching p (None = always true); appends (name, expr) captures to binds"""
+        if isinstance(p, ast.MatchValue):
+            return ast.Compare(left=copy.deepcopy(subj), ops=[ast.Eq()], comparators=[p.value])
+        if isinstance(p, ast.MatchSingleton):
+            return ast.Compare(left=copy.deepcopy(subj), ops=[ast.Is()], comparators=[ast.Constant(value=p.value)])
+        if isinstance(p, ast.MatchAs):
+            t = tr(p.pattern, subj, binds) if p.pattern is not None else None
+            if p.name is not None:
+                binds.append((p.name, copy.deepcopy(subj)))
+            return t
+        if isinstance(p, ast.MatchOr):
+            parts = []
+            for alt in p.patterns:
+                b2: list = []
+                t = tr(alt, subj, b2)
+                if b2:
+                    raise _No()
+                if t is None:
+                    return None
+                parts.append(t)
+            return ast.BoolOp(op=ast.Or(), values=parts)
+        if isinstance(p, ast.MatchClass):
+            if p.patterns:
+                raise _No()
+            tests: list[ast.expr] = []
+            is_object = isinstance(p.cls, ast.Name) and p.cls.id == "object"
+            if not is_object:
+                tests.append(ast.Call(func=ast.Name(id="isinstance", ctx=ast.Load()), args=[copy.deepcopy(subj), p.cls], keywords=[]))
+            for attr, sub in zip(p.kwd_attrs, p.kwd_patterns):
+                if is_object:
+                    tests.append(ast.Call(func=ast.Name(id="hasattr", ctx=ast.Load()), args=[copy.deepcopy(subj), ast.Constant(value=attr)], keywords=[]))
+                t = tr(sub, ast.Attribute(value=copy.deepcopy(subj), attr=attr, ctx=ast.Load()), binds)
+                if t is not None:
+                    tests.append(t)
+            if not tests:
+                return None
+            return tests[0] if len(tests) == 1 else ast.BoolOp(op=ast.And(), values=tests)
+        if isinstance(p, ast.MatchSequence):
+            if any(isinstance(x, ast.MatchStar) for x in p.patterns):
+                raise _No()
+            tests = [ast.Compare(left=ast.Call(func=ast.Name(id="len", ctx=ast.Load()), args=[copy.deepcopy(subj)], keywords=[]), ops=[ast.Eq()],
+                                 comparators=[ast.Constant(value=len(p.patterns))])]
+            for i, sub in enumerate(p.patterns):
+                t = tr(sub, ast.Subscript(value=copy.deepcopy(subj), slice=ast.Constant(value=i), ctx=ast.Load()), binds)
+                if t is not None:
+                    tests.append(t)
+            return tests[0] if len(tests) == 1 else ast.BoolOp(op=ast.And(), values=tests)
+        raise _No()
+
+    class _T(ast.NodeTransformer):
+        def visit_Match(self, node: ast.Match):
+            self.generic_visit(node)
+            subj = node.subject
+            if not isinstance(subj, (ast.Name, ast.Attribute)):
+                return node
+            arms: list[tuple[ast.expr | None, list[ast.stmt]]] = []
+            try:
+                for case in node.cases:
+                    binds: list = []
+                    t = tr(case.pattern, subj, binds)
+                    guard = case.guard
+                    if guard is not None and binds:
+                        # the guard may mention the captures: read them as the expressions they are bound to
+                        m = dict(binds)
+
+                        class _Sub(ast.NodeTransformer):
+                            def visit_Name(s2, n: ast.Name):  # noqa: N805
+                                return copy.deepcopy(m[n.id]) if n.id in m and isinstance(n.ctx, ast.Load) else n
+                        guard = _Sub().visit(copy.deepcopy(guard))
+                    if guard is not None:
+                        t = guard if t is None else ast.BoolOp(op=ast.And(), values=[t, guard])
+                    body = [ast.copy_location(ast.Assign(targets=[ast.Name(id=nm, ctx=ast.Store())], value=ex, type_comment=None), case.pattern)
+                            for nm, ex in binds] + list(case.body)
+                    arms.append((t, body))
+            except _No:
+                return node
+            # build the chain from the last arm backwards
+            tail: list[ast.stmt] = []
+            for t, body in reversed(arms):
+                if t is None:
+                    tail = body  # irrefutable arm: whatever followed it is unreachable
+                else:
+                    ifn = ast.If(test=t, body=body, orelse=tail)
+                    tail = [ast.copy_location(ifn, node)]
+            if not tail:
+                return ast.copy_location(ast.Pass(), node)
+            for st in tail:
+                ast.fix_missing_locations(ast.copy_location(st, node))
+            return tail
+
+    _T().visit(tree)
+    ast.fix_missing_locations(tree)
+
+
+def _hoist_walrus(tree: ast.AST) -> None:
+    """`if (x := e) <rest>:` reads `x = e` followed by `if x <rest>:` when the assignment expression is the first thing the
+    condition evaluates (leftmost operand, outside any short-circuit): same order of evaluation, same binding."""
+    def first_evaluated(e: ast.expr) -> tuple[ast.AST, str, ast.NamedExpr] | None:
+        """(parent, field, NamedExpr) of a walrus that is evaluated first and unconditionally"""
+        parent_, fld = None, None
+        cur = e
+        while True:
+            if isinstance(cur, ast.NamedExpr) and isinstance(cur.target, ast.Name):
+                return (parent_, fld, cur)
+            if isinstance(cur, ast.BoolOp):
+                parent_, fld, cur = cur, "values0", cur.values[0]
+            elif isinstance(cur, ast.UnaryOp):
+                parent_, fld, cur = cur, "operand", cur.operand
+            elif isinstance(cur, ast.Compare):
+                parent_, fld, cur = cur, "left", cur.left
+            else:
+                return None
+
+    class _T(ast.NodeTransformer):
+        def _block(self, stmts: list[ast.stmt]) -> list[ast.stmt]:
+            out: list[ast.stmt] = []
+            for st in stmts:
+                st = self.visit(st)
+                for _ in range(4):
+                    if not isinstance(st, ast.If):
+                        break
+                    hit = first_evaluated(st.test)
+                    if hit is None:
+                        break
+                    par, fld, ne = hit
+                    out.append(ast.copy_location(ast.Assign(targets=[ast.Name(id=ne.target.id, ctx=ast.Store())], value=ne.value, type_comment=None), st))
+                    repl = ast.copy_location(ast.Name(id=ne.target.id, ctx=ast.Load()), ne)
+                    if par is None:
+                        st.test = repl
+                    elif fld == "values0":
+                        par.values[0] = repl
+                    else:
+                        setattr(par, fld, repl)
+                out.append(st)
+            return out
+
+        def generic_visit(self, node):
+            super().generic_visit(node)
+            for fld in ("body", "orelse", "finalbody"):
+                v = getattr(node, fld, None)
+                if isinstance(v, list) and v and isinstance(v[0], ast.stmt):
+                    setattr(node, fld, self._block_noreenter(v))
+            return node
+
+        def _block_noreenter(self, stmts):
+            out: list[ast.stmt] = []
+            for st in stmts:
+                for _ in range(4):
+                    if not isinstance(st, ast.If):
+                        break
+                    hit = first_evaluated(st.test)
+                    if hit is None:
+                        break
+                    par, fld, ne = hit
+                    out.append(ast.copy_location(ast.Assign(targets=[ast.Name(id=ne.target.id, ctx=ast.Store())], value=ne.value, type_comment=None), st))
+                    repl = ast.copy_location(ast.Name(id=ne.target.id, ctx=ast.Load()), ne)
+                    if par is None:
+                        st.test = repl
+                    elif fld == "values0":
+                        par.values[0] = repl
+                    else:
+                        setattr(par, fld, repl)
+                out.append(st)
+            return out
+
+    _T().visit(tree)
+    ast.fix_missing_locations(tree)
+
+
 def _drop_local_annotations(tree: ast.AST) -> None:
     """Inside function bodies `x: T = v` is read as `x = v` (a local annotation has no effect at run time; class bodies and
     module level keep theirs - dataclass fields and typed constants are facts the rules use)."""
@@ -239,6 +420,8 @@ class Repo:
             except (SyntaxError, UnicodeDecodeError, OSError) as e:
                 raise AnalysisError(f"cannot parse {path}: {e}") from e
             _drop_local_annotations(tree)
+            _desugar_match(tree)
+            _hoist_walrus(tree)
             set_parents(tree)
             mod = Module(name=name, path=path, source=src, tree=tree)
             mod.imports = collect_imports(tree.body, name, is_pkg)
